@@ -632,9 +632,11 @@ where
         rp_id: Option<&'a str>,
     ) -> Result<&'a str, WebauthnError> {
         let host = target_link.host();
-        // The asset link host stands in for the origin's host: like it, it must be a domain name.
-        if !matches!(url::Host::parse(host), Ok(url::Host::Domain(_))) {
-            return Err(WebauthnError::OriginMissingDomain);
+        // The asset link host stands in for the origin's host: like it, it must be a domain name, and
+        // it must be one as it stands: the parser decodes percent escapes and maps unicode.
+        match url::Host::parse(host) {
+            Ok(url::Host::Domain(domain)) if domain.eq_ignore_ascii_case(host) => {}
+            _ => return Err(WebauthnError::OriginMissingDomain),
         }
         let mut effective_rp_id = host;
 
